@@ -12,6 +12,7 @@
 """
 import concurrent.futures as cf
 import math
+import re
 import subprocess
 
 import vlib
@@ -91,16 +92,95 @@ def db_op(db):
     return "db " + G.hs(str(DBDIR / db))
 
 
+_KW = {}
+
+
+def keywords():
+    """keyword names of the input language, read from the source on every run (a data block ends at the next keyword)"""
+    if "set" not in _KW:
+        src = (vlib.REPO / "src" / "phreeqcpp" / "PhreeqcKeywords" / "Keywords.cpp").read_text(errors="replace")
+        kw = set(re.findall(r'value_type\("([a-z_0-9]+)"', src))
+        if len(kw) < 60 or "gas_binary_parameters" not in kw or "end" not in kw:
+            raise RuntimeError("cannot read the keyword table from Keywords.cpp (code shape not recognised)")
+        _KW["set"] = kw
+    return _KW["set"]
+
+
+def parse_gbp(text, table=None, stop_at_end=False):
+    """Independent reading of the GAS_BINARY_PARAMETERS blocks of a database / input TEXT: `gas1 gas2 k` defines the
+    interaction parameter of the unordered pair (both key orders), later entries override earlier ones.
+    Returns {(name1, name2): k} holding both orders of every pair."""
+    table = {} if table is None else table
+    kw = keywords()
+    inside = False
+    for raw in text.splitlines():
+        raw = raw.split("#", 1)[0]
+        for piece in raw.split(";"):
+            w = piece.split()
+            if not w:
+                continue
+            first = w[0].lower()
+            if first in kw:
+                if stop_at_end and first == "end":
+                    return table
+                inside = first == "gas_binary_parameters"
+                continue
+            if inside and len(w) >= 3:
+                m = re.match(r"[-+]?(\d+\.?\d*([eE][-+]?\d+)?|\.\d+([eE][-+]?\d+)?)", w[2])
+                if m:
+                    k = float(m.group(0))
+                    table[(w[0], w[1])] = k
+                    table[(w[1], w[0])] = k
+    return table
+
+
+def db_text(db):
+    return db[1] if isinstance(db, tuple) else (DBDIR / db).read_text(errors="replace")
+
+
+def map_diff(engine, text):
+    """engine map {(a,b): k} (read back through friend access) against the reading of the text, both key orders"""
+    for key in sorted(set(engine) | set(text)):
+        if key not in engine:
+            return f"the engine holds no binary parameter for the key order {key} (text: {text[key]})"
+        if key not in text:
+            return f"the engine holds a binary parameter for {key} = {engine[key]} that the text does not define"
+        if engine[key] != text[key]:
+            return f"binary parameter {key}: engine {engine[key]}, text {text[key]}"
+    return None
+
+
+def pre_lines(gas_lines, table):
+    return ["clear"] + ["gas " + g for g in gas_lines] + [f"kij {G.hs(a)} {G.hs(b)} {G.hd(k)}" for (a, b), k in sorted(table.items())]
+
+
+def engine_map(lines):
+    m = {}
+    for ln in lines:
+        if ln.startswith("K "):
+            a, b, k = ln.split()[1:4]
+            m[(G.uhs(a), G.uhs(b))] = G.ud(k)
+    return m
+
+
+def symmetric_in_lean(ctx, emap):
+    """the run-time obligation behind `binaryFactor_symm_of_check`: `symmetricTab` evaluated by the Lean model on the
+    map the engine holds"""
+    out = pm(ctx, "\n".join([f"kij {G.hs(a)} {G.hs(b)} {G.hd(k)}" for (a, b), k in sorted(emap.items())] + ["symtab"]) + "\n")
+    return out[-1].strip() == "SYM true"
+
+
 def db_consts(exe, db):
-    """critical constants and binary parameters as the engine holds them after loading `db`"""
+    """critical constants as the engine holds them after loading `db` (friend access); binary parameters both as the engine
+    holds them and as the database TEXT defines them. The EOS side of every oracle uses the reading of the text."""
     out, err = harness(exe, db_op(db) + "\ndump\n")
     if err or not out or out[0] != "D 0":
         raise RuntimeError(f"cannot load database {db if not isinstance(db, tuple) else 'synthetic'}: {err} {out[:1] if out else ''}")
     gases = [ln[2:] for ln in out if ln.startswith("G ")]
-    kij = [ln[2:] for ln in out if ln.startswith("K ")]
     names = [G.uhs(g.split()[0]) for g in gases]
-    pre = ["clear"] + ["gas " + g for g in gases] + ["kij " + k for k in kij]
-    return names, pre, len(kij)
+    emap = engine_map(out)
+    tmap = parse_gbp(db_text(db), stop_at_end=True)
+    return dict(names=names, gas_lines=gases, engine=emap, text=tmap, pre=pre_lines(gases, tmap))
 
 
 # ------------------------------------------------------------------------------------------------ (2) calc_PR tie
@@ -212,10 +292,19 @@ def tie_calc_pr(ctx, exe, ok):
         dbs.append(("text", t, mode))
     evals = distinct = 0
     broken = None
+    map_broken = None
+    obligations = {"maps_checked": 0}
     branches = {}
     for db in dbs:
-        names, pre, nk = db_consts(exe, db)
+        dc = db_consts(exe, db)
+        names, pre, nk = dc["names"], dc["pre"], len(dc["text"])
         label = db if not isinstance(db, tuple) else f"synthetic({db[2]})"
+        md = map_diff(dc["engine"], dc["text"])
+        sym = symmetric_in_lean(ctx, dc["engine"])
+        obligations["maps_checked"] += 1
+        if (md or not sym) and map_broken is None:
+            map_broken = {"kind": "map", "db": label if not isinstance(db, tuple) else {"synthetic": db[1]},
+                          "difference": md, "symmetricTab": sym}
         n = n_per_db if db == "phreeqc.dat" or isinstance(db, tuple) else n_per_db // 3
         ops = G.pr_ops(ctx.rng, names, n, hist) + G.prn_ops(ctx.rng, names, n // 4, hist)
         htext = db_op(db) + "\n" + "".join(("fresh\n" if i % 7 == 0 else "") + o + "\n" for i, o in enumerate(ops))
@@ -277,6 +366,11 @@ def tie_calc_pr(ctx, exe, ok):
             po = parse_pr_op(ops[0])
             ctx.sample({"calc_PR_op": po, "impl_Vm": G.ud(impl[0].split()[1]) if len(impl[0].split()) > 1 and len(impl[0].split()[1]) == 16 else impl[0]})
     hist.update(branches)
+    hist["binary_parameter_maps_tied_to_text_and_symmetric"] = obligations["maps_checked"]
+    if map_broken and not ctx.violations:
+        ctx.violation("the engine's gas_binary_parameters map differs from the GAS_BINARY_PARAMETERS text / is not symmetric "
+                      "(no calc_PR case contradicting the equation of state was found): " + str(map_broken["difference"]),
+                      map_broken, found_input=False)
     if broken and not ctx.violations:
         ctx.violation("calc_PR differs from the proved Peng-Robinson model by more than 1e-10 (property relations still "
                       "hold on the cases found)", broken, found_input=False)
@@ -286,7 +380,7 @@ def tie_calc_pr(ctx, exe, ok):
 # ------------------------------------------------------------------------------------------------ (3) real runs
 def parse_run(lines):
     """harness output of one `run` → dict(rc, err, warn, rows=[{heading: value}], nfv)"""
-    res = dict(rc=None, err="", warn="", rows=[], nfv=0)
+    res = dict(rc=None, err="", warn="", rows=[], nfv=0, kmap=engine_map(lines))
     heads = None
     for ln in lines:
         w = ln.split()
@@ -318,7 +412,7 @@ def parse_run(lines):
 
 
 def run_real(exe, case, timeout=120):
-    out, err = harness(exe, db_op(case["db"]) + "\nrun " + G.hs(case["input"]) + "\n", timeout=timeout)
+    out, err = harness(exe, db_op(case["db"]) + "\nrun " + G.hs(case["input"]) + "\ndump\n", timeout=timeout)
     if err:
         return dict(rc=None, err=err, warn="", rows=[], nfv=0, crashed=True)
     return parse_run(out)
@@ -463,7 +557,8 @@ def real_runs(ctx, exe, ok):
     cases = G.corpus_cases() + [G.real_case(ctx.rng, hist) for _ in range(n)]
     consts = {}
     for db in sorted({c["db"] for c in cases}):
-        consts[db] = db_consts(exe, db)[1]
+        consts[db] = db_consts(exe, db)
+    map_broken = None
     with cf.ThreadPoolExecutor(max_workers=vlib.NCPU) as ex:
         results = list(ex.map(lambda c: run_real(exe, c), cases))
     stats = {"completed": 0, "error_runs": 0, "crashed": 0}
@@ -483,7 +578,14 @@ def real_runs(ctx, exe, ok):
             stats["error_kinds"][key] = stats["error_kinds"].get(key, 0) + 1
             continue
         stats["completed"] += 1
-        checks, cnt = judge(ctx, case, res, consts[case["db"]])
+        dc = consts[case["db"]]
+        table = parse_gbp(case["input"], dict(dc["text"]))
+        if table != dc["text"]:
+            stats["inputs_with_own_binary_parameters"] = stats.get("inputs_with_own_binary_parameters", 0) + 1
+            md = map_diff(res["kmap"], table)
+            if (md or not symmetric_in_lean(ctx, res["kmap"])) and map_broken is None:
+                map_broken = {"kind": "real", "case": dict(case), "relation": "engine map vs GAS_BINARY_PARAMETERS text", "difference": md}
+        checks, cnt = judge(ctx, case, res, pre_lines(dc["gas_lines"], table))
         for k, v in cnt.items():
             cnt_all[k] = cnt_all.get(k, 0) + v
         if checks:
@@ -503,6 +605,10 @@ def real_runs(ctx, exe, ok):
                                "tolerance": tol})
         if judged == 1 and checks:
             ctx.sample({"real_input": case["input"].splitlines()[:14], "relations_checked": sorted({c[0] for c in checks})})
+    if map_broken and not ctx.violations:
+        ctx.violation("after a run with GAS_BINARY_PARAMETERS in the input the engine's map differs from the text / is not symmetric "
+                      "(no run contradicting the property's relations was found): " + str(map_broken["difference"]),
+                      map_broken, found_input=False)
     return len(cases), judged, hist, stats, rels, cnt_all
 
 
@@ -554,7 +660,7 @@ def _replay(ctx, exe, data):
     if data.get("kind") == "tie":
         db = data["db"]
         db = ("text", db["synthetic"], "replay") if isinstance(db, dict) else db
-        names, pre, _ = db_consts(exe, db)
+        pre = db_consts(exe, db)["pre"]
         out, err = harness(exe, db_op(db) + "\nfresh\n" + data["op"] + "\n")
         model = pm(ctx, "\n".join(pre + [data["op"]]) + "\n")
         print("impl :", out[-1] if out else err)
@@ -564,12 +670,24 @@ def _replay(ctx, exe, data):
         if d is not None:
             bad = oracle_pr(ctx, pre, data["op"], out[-1]) if out else "crash"
             ctx.violation("replayed calc_PR op still disagrees" + (": " + bad if bad else ""), data, found_input=bool(bad))
+    elif data.get("kind") == "map":
+        db = data["db"]
+        db = ("text", db["synthetic"], "replay") if isinstance(db, dict) else db
+        dc = db_consts(exe, db)
+        md = map_diff(dc["engine"], dc["text"])
+        sym = symmetric_in_lean(ctx, dc["engine"])
+        print("engine map vs text:", md, "| symmetricTab:", sym)
+        if md or not sym:
+            ctx.violation("replayed database: engine map still differs from the text / is not symmetric", data, found_input=False)
     elif data.get("kind") == "real":
         case = data["case"]
         res = run_real(exe, case)
         print("run:", res["rc"], res["err"][:200])
         if res["rc"] == 0:
-            pre = db_consts(exe, case["db"])[1]
+            dc = db_consts(exe, case["db"])
+            table = parse_gbp(case["input"], dict(dc["text"]))
+            print("engine map vs text:", map_diff(res["kmap"], table))
+            pre = pre_lines(dc["gas_lines"], table)
             checks, cnt = judge(ctx, case, res, pre)
             for name, val, tol, msg in checks:
                 print(f"  {name}: {val:.3g} (tol {tol})" + (f"  FAIL {msg}" if msg else ""))
